@@ -277,7 +277,7 @@ inline void emit_violation(const char* tag, std::uint64_t runidx, std::uint64_t 
 inline int worker_main(Engine& eng, int argc, char** argv) {
     ensure_no_aslr(argv);
     std::string mode, prop = "", tier = "quick", planfile;
-    std::uint64_t batch = 1, start = 0, stride = 1, count = 0, samples = 0;
+    std::uint64_t batch = 1, start = 0, stride = 1, count = 0, samples = 0, until = ~0ull;
     bool hashes = false, sweep_only = false, no_sweep = false;
     for (int i = 1; i < argc; ++i) {
         std::string a = argv[i];
@@ -291,6 +291,7 @@ inline int worker_main(Engine& eng, int argc, char** argv) {
         else if (a == "--stride") stride = std::strtoull(nx(), nullptr, 0);
         else if (a == "--count") count = std::strtoull(nx(), nullptr, 0);
         else if (a == "--samples") samples = std::strtoull(nx(), nullptr, 0);
+        else if (a == "--until") until = std::strtoull(nx(), nullptr, 0);     // stop after this run index (history replay)
         else if (a == "--hashes") hashes = true;
         else if (a == "--sweep-only") sweep_only = true;
         else if (a == "--no-sweep") no_sweep = true;
@@ -324,7 +325,7 @@ inline int worker_main(Engine& eng, int argc, char** argv) {
     std::uint64_t emitted_samples = 0;
     // run index space: [0,nsweep) = sweep plans, [nsweep, nsweep+count) = seeded plans
     const std::uint64_t total = sweep_only ? nsweep : nsweep + count;
-    for (std::uint64_t i = start; i < total; i += stride) {
+    for (std::uint64_t i = start; i < total && i <= until; i += stride) {
         Plan plan; bool sweep = i < nsweep; std::uint64_t seed = 0;
         if (sweep) { eng.sweep_plan(i, plan); plan.head.setu("sweep", i); }
         else { seed = run_seed(batch, eng.name(), i - nsweep); Rng rng(seed); eng.generate(rng, plan); plan.head.setu("seed", seed); }
@@ -343,7 +344,7 @@ inline int worker_main(Engine& eng, int argc, char** argv) {
             ++nviol;
             std::string key = rr.v.prop; for (auto& s : rr.v.sig) { key += '|'; key += s; }
             std::uint64_t& c = sigcount[key];
-            if (c < 3) emit_violation("V", i, seed, sweep, plan, rr);   // at most 3 full plans per signature per worker
+            if (c < 3 || until != ~0ull) emit_violation("V", i, seed, sweep, plan, rr);   // at most 3 full plans per signature per worker
             ++c;
         }
         if (emitted_samples < samples && !rr.v.set && (sweep ? (i % 97 == 0) : true) ) {
